@@ -245,6 +245,9 @@ class Interp:
     def as_class(self, v):
         if isinstance(v, Native) and v.name.startswith('builtins.') and v.name[9:] in BUILTIN_CLASSES:
             return BUILTIN_CLASSES[v.name[9:]]
+        if isinstance(v, Native) and v.name.split('.')[0] in ('asyncio', 'collections', 'weakref') \
+                and v.name.split('.')[-1] in BUILTIN_CLASSES:
+            return BUILTIN_CLASSES[v.name.split('.')[-1]]
         if isinstance(v, ModuleAttr):
             nm = v.attr
             if nm in BUILTIN_CLASSES:
@@ -582,6 +585,8 @@ class Interp:
                     return v
                 except KeyError:
                     pass
+            if 'future' in obj.ghost:
+                return obj.ghost['future'].pyvc_getattr(self, name)
             self.throw('AttributeError', name)
         if isinstance(obj, Boxed):
             if name == '__class__':
@@ -850,6 +855,7 @@ class Interp:
             self.call(Bound(init, holder), args, kwargs)
             return exc
         obj = Obj(cls)
+        self.attach_future(obj)
         try:
             owner, init = self.class_attr_raw(cls, '__init__')
         except KeyError:
@@ -868,6 +874,13 @@ class Interp:
         if args or kwargs:
             self.throw('TypeError', f'{cls.name}() takes no arguments')
         return obj
+
+    def attach_future(self, obj: Obj):
+        """Instances of repo classes deriving from asyncio.Future carry an abstract future (pyvc.aio.TaskVal)."""
+        if any(isinstance(c, BuiltinClass) and c.name in ('Future', 'Task') for c in obj.cls.mro) and hasattr(self, 'aio'):
+            from .aio import TaskVal
+            obj.ghost['future'] = TaskVal(self.aio, None, obj.label, kind='future')
+            obj.ghost['future'].owner = obj
 
     def dataclass_init(self, obj: Obj, cls: ClassVal, args: list, kwargs: dict):
         flds = self.dataclass_fields(cls)
@@ -1434,6 +1447,8 @@ class Interp:
             return self.run_coro(v)
         if hasattr(v, 'pyvc_await'):
             return v.pyvc_await(self)
+        if isinstance(v, Obj) and 'future' in v.ghost:
+            return v.ghost['future'].pyvc_await(self)
         if self.on_await is not None:
             return self.on_await(self, v)
         raise Unsupported(f'await of {v!r}')
